@@ -126,6 +126,7 @@ def run(ctx):
     # ------------------------------------------------------------------ R2
     R2 = "C16.R2"
     run.rule(R2, "the PMMR paging loop visits every batch (exit test, next start index, every batch consumed)", floor=8)
+    sc = ctx.fn(S + "scan")
     for name, consumer in (("collect_chain_outputs", S + "identify_utxo_outputs"), ("collect_chain_outputs_rewind_hash", None)):
         f = ctx.fn(S + name)
         if not f:
@@ -311,6 +312,23 @@ def run(ctx):
                 run.instance(R3, {"fn": "scan", "obligation": "matched records are classified by status: Spent -> accidental spends, Locked -> locked", "classification": {("_%d" % k): v for k, v in cls.items()}}, held=h)
                 if not h:
                     run.finding(Finding(R3, sc.id, "classification of matched records changed: %s" % sorted(cls.values()), site=sc.loc()))
+            # a chain output is matched to a wallet record by its commitment
+            OCM = c.LW + "api_impl::types::OutputCommitMapping"
+            mt = False
+            for k in db.closures_of(sc.id):
+                g = db.fns[k]
+                for x in cfg.comparisons(g):
+                    if x.op != "Eq":
+                        continue
+                    pl, pr_ = vf.producers(g, x.l) | vf.get_flow(g).of_operand(x.l), vf.producers(g, x.r) | vf.get_flow(g).of_operand(x.r)
+                    for a, b_ in ((pl, pr_), (pr_, pl)):
+                        if vf.has_field(a, OCM, "commit") and vf.has_field(b_, OR, "commit"):
+                            mt = True
+            fnd = [t for _b, t in sc.calls() if (t.get("f") or "").endswith("Iterator::find")]
+            mt = mt and len(fnd) == 1
+            run.instance(R3, {"fn": "scan", "obligation": "the wallet record of a chain output is looked up by commitment (one find, commit == commit)"}, held=mt)
+            if not mt:
+                run.finding(Finding(R3, sc.id, "chain outputs are not matched to wallet records by commitment", site=sc.loc()))
             # the unconfirmed set is selected by status == Unconfirmed
             unc = False
             for k in db.closures_of(sc.id):
@@ -324,6 +342,25 @@ def run(ctx):
             run.instance(R3, {"fn": "scan", "obligation": "the outputs deleted are those with status == Unconfirmed"}, held=unc)
             if not unc:
                 run.finding(Finding(R3, sc.id, "selection of unconfirmed outputs (status == Unconfirmed) not found", site=sc.loc()))
+    if sc:
+        # the range that is paged through is exactly the node's index range for [start_height, end_height]
+        HR = c.LW + "types::NodeClient::height_range_to_pmmr_indices"
+        hr = cfg.find_calls(sc, HR)
+        cc = cfg.find_calls(sc, S + "collect_chain_outputs")
+        h = len(hr) == 1 and len(cc) == 1
+        if h:
+            t = hr[0][1]
+            p1, p2 = vf.producers(sc, t["a"][1]), vf.producers(sc, t["a"][2])
+            sh, eh = c.param(sc, "start_height", "u64", 0), c.param(sc, "end_height", "u64", 1)
+            h = p1 == {("arg", sh)} and ("arg", eh) in p2 and ("agg", "core::option::Option", "Some") in p2 and not any(x[0] in ("binop", "const") for x in p1 | p2)
+            ct = cc[0][1]
+            q1, q2 = vf.producers(sc, ct["a"][2]), vf.producers(sc, ct["a"][3])
+            frm = lambda pr: any(x[0] == "call" and x[1] == HR for x in pr)
+            h = h and frm(q1) and _tuple_field(q1, 0) and not _tuple_field(q1, 1) and not any(x[0] == "binop" for x in q1)
+            h = h and frm(q2) and _tuple_field(q2, 1) and not _tuple_field(q2, 0) and not any(x[0] == "binop" for x in q2) and ("agg", "core::option::Option", "Some") in q2
+        run.instance(R2, {"fn": "scan", "obligation": "pages [indices(start_height, Some(end_height)).0 ..= Some(.1)] unmodified"}, held=h)
+        if not h:
+            run.finding(Finding(R2, sc.id, "the PMMR index range scanned is not exactly the node's range for (start_height, end_height)", site=sc.loc()))
     R5 = "C16.R5"
     run.rule(R5, "every account re-created by a scan gets its own label (the label counter advances per account)", floor=2)
     if sc:
